@@ -394,6 +394,10 @@ pub fn iter_routes<I: Iterator>(mk: &dyn Fn() -> I, pj: &dyn Fn(I::Item) -> J) -
 		if k < n && it.next().map(pj) != stepped.get(k + 1).cloned() {
 			return Some(format!("next() after nth({k})"));
 		}
+		// ... and is exhausted for good after an nth past its end
+		if k >= n && (it.next().is_some() || it.size_hint().0 != 0 || it.count() != 0) {
+			return Some(format!("the iterator yields again after nth({k}) went past its end"));
+		}
 		// nth on an iterator that has already yielded elements by next()
 		for pre in 1..3usize {
 			let mut it = mk();
